@@ -55,13 +55,33 @@ class FnSpec:
         return (self.file, self.impl_re, self.name)
 
 
-def load_overlay(path):
+def filter_variant(lines, variants):
+    """`//#if X` / `//#ifnot X` / `//#endif` blocks (not nested); variants: set of active names."""
+    out, keep, inside = [], True, False
+    for ln in lines:
+        st = ln.strip()
+        m = re.fullmatch(r'//#(if|ifnot)\s+([A-Za-z0-9_\-]+)', st)
+        if m:
+            if inside:
+                raise Unsupported('nested //#if')
+            inside = True
+            keep = (m.group(2) in variants) == (m.group(1) == 'if')
+            out.append('')
+        elif st == '//#endif':
+            inside, keep = False, True
+            out.append('')
+        else:
+            out.append(ln if keep else '')
+    return out
+
+
+def load_overlay(path, variants=frozenset()):
     specs = []
     cur, sec = None, None
     if not os.path.exists(path):
         return specs
     with open(path, encoding='utf-8') as f:
-        lines = f.read().split('\n')
+        lines = filter_variant(f.read().split('\n'), variants)
     buf = []
 
     def flush():
@@ -375,7 +395,9 @@ def extract_fn(item, file, impl_key, spec, twin_false=False):
     if ens is not None:
         used.add('ensures')
     if twin_false:
-        ens = (ens or '') + '//# vacuity-false:\nfalse,\n'
+        # an uninterpreted boolean per function: provable only if the context is contradictory,
+        # and harmless for callers (unlike `ensures false`, which would poison every caller)
+        ens = (ens or '') + '//# vacuity-false:\nvacuity_probe_%s(),\n' % twin_false
     if ens is not None:
         out += splice_toks('ensures\n' + ens + '//#end\n')
     out.append(toks[item.body_open])
@@ -517,8 +539,8 @@ def _find_impl(repo, file, hre, cache):
     return hits[0]
 
 
-def build_unit(name, repo, template_path, overlay_path, twin_false=False):
-    specs = load_overlay(overlay_path)
+def build_unit(name, repo, template_path, overlay_path, twin_false=False, variants=frozenset(), base=None):
+    specs = load_overlay(overlay_path, variants)
     byk = {}
     for s in specs:
         if s.key() in byk:
@@ -526,9 +548,11 @@ def build_unit(name, repo, template_path, overlay_path, twin_false=False):
         byk[s.key()] = s
     cache = {}
     u = Unit(name)
+    u.base = base or name
     chunks = []   # list of ('text', str) | ('toks', [Tok], meta)
+    probes = []
     with open(template_path, encoding='utf-8') as f:
-        tlines = f.read().split('\n')
+        tlines = filter_variant(f.read().split('\n'), variants)
 
     def emit_fn(file, hre, impl_item, fname):
         sub = rsscan.split_items(impl_item.body_toks())
@@ -536,7 +560,11 @@ def build_unit(name, repo, template_path, overlay_path, twin_false=False):
         if len(hits) != 1:
             raise Unsupported('fn %s in %s %s: %d matches (lost anchor)' % (fname, file, hre, len(hits)))
         spec = byk.get((file, hre, fname))
-        fo = extract_fn(hits[0], file, hre, spec, twin_false)
+        probe = None
+        if twin_false:
+            probe = 'p%d' % len(probes)
+            probes.append(probe)
+        fo = extract_fn(hits[0], file, hre, spec, probe)
         chunks.append(('fn', fo, file, hre))
 
     def process(lines, depth=0):
@@ -547,7 +575,10 @@ def build_unit(name, repo, template_path, overlay_path, twin_false=False):
             if st.startswith('//@include '):
                 p = os.path.join(VERIF, st.split(None, 1)[1].strip())
                 with open(p, encoding='utf-8') as f:
-                    process(f.read().split('\n'), depth + 1)
+                    process(filter_variant(f.read().split('\n'), variants), depth + 1)
+            elif st == '//@vacuity-probes':
+                for pn in probes:
+                    chunks.append(('text', 'pub uninterp spec fn vacuity_probe_%s() -> bool;\n' % pn))
             elif st.startswith('//@extract '):
                 a = st.split()
                 kind = a[1]
@@ -710,7 +741,7 @@ def write_unit(u, outdir):
     p = os.path.join(outdir, u.name + '.rs')
     with open(p, 'w', encoding='utf-8') as f:
         f.write(u.text)
-    meta = dict(name=u.name, functions=u.functions, regions=u.regions,
+    meta = dict(name=u.name, base=getattr(u, 'base', u.name), functions=u.functions, regions=u.regions,
                 linemap={str(k): v for k, v in u.linemap.items()},
                 dropped=u.dropped, trusted=u.trusted, sources=sorted(u.sources))
     with open(os.path.join(outdir, u.name + '.meta.json'), 'w', encoding='utf-8') as f:
@@ -725,11 +756,13 @@ if __name__ == '__main__':
     ap.add_argument('--repo', default='/repo')
     ap.add_argument('--out', default=os.path.join(VERIF, 'build', 'units'))
     ap.add_argument('--twin', action='store_true')
+    ap.add_argument('--variant', action='append', default=[])
     a = ap.parse_args()
     try:
         u = build_unit(a.unit + ('_twin' if a.twin else ''), a.repo,
                        os.path.join(VERIF, 'units', a.unit + '.rs.in'),
-                       os.path.join(VERIF, 'specs', a.unit + '.spec'), twin_false=a.twin)
+                       os.path.join(VERIF, 'specs', a.unit + '.spec'), twin_false=a.twin,
+                       variants=frozenset(a.variant))
     except Unsupported as e:
         print('EXTRACT-UNSUPPORTED: %s' % e)
         sys.exit(2)
